@@ -1,5 +1,6 @@
 """C15 — descriptor identity is structural."""
 from grpb import *
+import random
 from grpa import mc_module
 from chars import *
 LEVEL = "model_checking"
@@ -40,7 +41,6 @@ def run(ctx):
     if len(cases) > 120000:
         # the thorough pool (several hundred thousand descriptors) is enumerated and its theorems checked by TLC; a seeded sample of it
         # is executed against the library
-        import random
         cases = random.Random(ctx.seed + 15).sample(cases, 120000)
     jobs, meta = [], []
     R = 3 if quick else 6
@@ -165,6 +165,27 @@ def run(ctx):
                         {"name": "m", "help": "H" + ch + "C", "cl": [], "vl": []}, {"name": "m", "help": "H" + ch + "F", "cl": [], "vl": []},
                         {"name": "m", "help": "H" + ch, "cl": [["zone_a", ""]], "vl": []}, {"name": "m", "help": "H" + ch, "cl": [["zone_b", ""]], "vl": []}])
     batches.append([{"name": "m", "help": h, "cl": [], "vl": []} for h in ("Jobs done.", "Jobs done. ", " Jobs done.", "Jobs done.\n", "Jobs done.\t", " ", "  ", "Jobs  done.")])
+    # boundary shifts with NOTHING between the fields: one word cut at every pair of positions into (help, first name, second name) for
+    # constant and for variable labels, into (name, first value, second value), and a help text ending in the marker of variable labels
+    w = "abcdef"
+    cuts = [(i, j) for i in range(1, len(w)) for j in range(i + 1, len(w))]
+    batches.append([{"name": "m", "help": w[:i], "cl": [[w[i:j], "v"], [w[j:], "v"]], "vl": []} for i, j in cuts] + [{"name": "m", "help": w[:i], "cl": [[w[i:], "v"]], "vl": []} for i in range(1, len(w))])
+    batches.append([{"name": "m", "help": w[:i], "cl": [], "vl": [w[i:j], w[j:]]} for i, j in cuts] + [{"name": "m", "help": w[:i], "cl": [], "vl": [w[i:]]} for i in range(1, len(w))]
+                   + [{"name": "m", "help": w[:i] + "$", "cl": [[w[i:], "v"]], "vl": []} for i in range(1, len(w))])
+    batches.append([{"name": w[:i], "help": "h", "cl": [["k1", w[i:j]], ["k2", w[j:]]], "vl": []} for i in range(1, len(w)) for j in range(i, len(w) + 1)])
+    # many constant labels (9, 12, 20 - beyond any small inline capacity), the same descriptor built from hash maps filled in different
+    # orders (every map is a fresh one with its own hash seed), next to descriptors that differ from it in one value or one name
+    ordr = random.Random(ctx.seed + 151)
+    for nl in (9, 12, 20):
+        base = [["k%02d" % i, "v%d" % i] for i in range(nl)]
+        many = []
+        for _ in range(5):
+            o = list(base); ordr.shuffle(o)
+            many.append({"name": "m", "help": "h", "cl": o, "vl": []})
+        many.append({"name": "m", "help": "h", "cl": base[:-1] + [[base[-1][0], "other"]], "vl": []})
+        many.append({"name": "m", "help": "h", "cl": base[:-1] + [["k99", base[-1][1]]], "vl": []})
+        many.append({"name": "m", "help": "h", "cl": base[:-1], "vl": [base[-1][0]]})
+        batches.append(many)
     ojobs = []
     for bi, ds in enumerate(batches):
         for di, dsc in enumerate(ds):
@@ -177,7 +198,10 @@ def run(ctx):
             continue
         dsc = batches[j["b"]][j["d"]]
         real_d = rs[1]["ok"][0]
-        recs[j["b"]]["descs"].append({"name": to_ranks(dsc["name"]), "help": to_ranks(dsc["help"]), "cl": [[to_ranks(n), to_ranks(v)] for n, v in dsc["cl"]], "vl": [to_ranks(v) for v in dsc["vl"]],
+        # (scalar values, not the ranks of chars.py: DescOracle only compares and sorts, and the order must be the code's byte order for
+        # every character - UTF-8 byte order is scalar value order)
+        sv = lambda t: [1000 + ord(ch) for ch in t]
+        recs[j["b"]]["descs"].append({"name": sv(dsc["name"]), "help": sv(dsc["help"]), "cl": [[sv(n), sv(v)] for n, v in dsc["cl"]], "vl": [sv(v) for v in dsc["vl"]],
                                       "id": real_d["id"], "dim": real_d["dim"]})
     rej = oracle(ctx, "DescOracle", "AllOK", recs, "long", chunk=1)
     for i in sorted(rej):
